@@ -121,3 +121,76 @@ def userDiscrOf (vs : List Data) : DiscrTable :=
   fun k => ((vs[k]?).bind (·.discriminant)).map (·.value)
 
 end DW
+
+namespace DW
+
+/-- The leaf stored at position `i`. -/
+def leafAt {α} (fs : List (Val α)) (i : Nat) : Option α :=
+  match fs[i]? with
+  | some (.leaf a) => some a
+  | _ => none
+
+/-- One event per listed field position, in order. -/
+def leafEvents {α} (fs : List (Val α)) (is : List Nat) (ev : Nat → α → Event α) : Log α :=
+  is.filterMap fun i => (leafAt fs i).map (ev i)
+
+/-- What `hash` feeds the hasher: the variant (for enums), then every field
+not skipped for `Hash`, in declaration order. -/
+def specHashLog {α} (it : Item) : Val α → Log α
+  | .adt k fs =>
+    match it.variants[k]? with
+    | some d =>
+      (if d.isVariant then [Event.hashDisc k] else []) ++
+        leafEvents fs (d.relevantIdx .hash) fun _ a => .hashField a
+    | none => []
+  | _ => []
+
+/-- Some field of `d` is skipped for `t`. -/
+def Data.someSkipped (d : Data) (t : Trait) : Bool :=
+  d.skipInner.covers t || d.fields.any (·.skip.covers t)
+
+/-- The formatter calls of `fmt`. -/
+def specDebugLog {α} (it : Item) : Val α → Log α
+  | .adt k fs =>
+    match it.variants[k]? with
+    | some d =>
+      match d.shape with
+      | .named =>
+        [Event.debugStruct (.dataName k)] ++
+          leafEvents fs (d.relevantIdx .debug) (fun i a => .fmtField (some (.fieldName k i)) a) ++
+          [if d.someSkipped .debug then Event.finishNonExhaustive else .finish]
+      | .tuple =>
+        [Event.debugTuple (.dataName k)] ++
+          leafEvents fs (d.relevantIdx .debug) (fun _ a => .fmtField none a) ++ [Event.finish]
+      | .unit => [Event.writeStr (.dataName k)]
+      | .union => []
+    | none => []
+  | _ => []
+
+/-- `clone`: the same variant with every field cloned through its own impl. -/
+def specCloneVal {α} (ops : FieldOps α) : Val α → Val α
+  | .adt k fs => .adt k ((List.range fs.length).filterMap fun i => (leafAt fs i).map fun a => .leaf (ops.clone a))
+  | v => v
+
+def specCloneLog {α} : Val α → Log α
+  | .adt _ fs => leafEvents fs (List.range fs.length) fun _ a => .cloneField a
+  | _ => []
+
+/-- `default()`: variant `k` with every field defaulted. -/
+def specDefaultVal {α} (ops : FieldOps α) (k : Nat) (d : Data) : Val α :=
+  .adt k ((List.range d.fields.length).map fun i => .leaf (ops.default k i))
+
+def specDefaultLog {α} (k : Nat) (d : Data) : Log α :=
+  (List.range d.fields.length).map fun i => .defaultField k i
+
+/-- `zeroize` / drop: one event per field of the live variant not skipped for
+`Zeroize`, through the way `via` selects (method, fully qualified, or
+`zeroize_or_on_drop`). -/
+def specZeroizeLog {α} (it : Item) (t : Trait) (via : Field → ZVia) : Val α → Log α
+  | .adt k fs =>
+    match it.variants[k]? with
+    | some d => leafEvents fs (d.relevantIdx t) fun i _ => .zeroize i (via (d.fields.getD i default))
+    | none => []
+  | _ => []
+
+end DW
